@@ -131,9 +131,13 @@ def split_every_length(hb: bytes, n: int) -> bool:
     return fin(_split_ok(hb, body))
 
 
-class _Proto:
-    _add_message_block = Protocol._add_message_block
-    message_type = SecsIMessage
+def _secsi_protocol():
+    from secsgem.secsi.protocol import SecsIProtocol
+    from secsgem.secsi.settings import SecsISettings
+    p = SecsIProtocol.__new__(SecsIProtocol)
+    Protocol.__init__(p, SecsISettings(port="RIG"))
+    return p
+
 
 
 def reassembly(h1: bytes, h2: bytes, n1: int, n2: int, order: List[bool], d: bytes) -> bool:
@@ -152,7 +156,7 @@ def reassembly(h1: bytes, h2: bytes, n1: int, n2: int, order: List[bool], d: byt
     # blocks as produced by splitting (the wire codec of a block is covered by block_encode/block_decode: pivot rule)
     q1 = list(SecsIMessage(SecsIHeader.decode(h1), body1).blocks)
     q2 = list(SecsIMessage(SecsIHeader.decode(h2), body2).blocks)
-    p = _Proto()
+    p = _secsi_protocol()
     p._incomplete_messages = SimpleDict([])
     done = []
     i = j = 0
